@@ -3,7 +3,10 @@ use crate::gen::{self, Rng};
 use crate::proto::*;
 use crate::{alloc, Out};
 use scale::{Decode, Encode};
-use scale_info::{Path, PortableRegistry, PortableType, Type, TypeDefPrimitive, TypeDefTuple};
+use scale_info::{
+    form::PortableForm, Field, Path, PortableRegistry, PortableType, Type, TypeDefComposite, TypeDefPrimitive, TypeDefTuple, TypeDefVariant,
+    TypeParameter, Variant,
+};
 use std::collections::HashMap;
 use std::panic::{catch_unwind, AssertUnwindSafe};
 
@@ -193,6 +196,28 @@ pub fn codec(r: &mut Rng, n: u64, thorough: bool, out: &mut Out) {
         }
     }
     if !gen::small() {
+        // every kind of list with 255 / 256 / 257 elements (the u8 range), whatever the random stream did
+        for len in [255usize, 256, 257] {
+            let p0 = || Path::from_segments_unchecked(Vec::<String>::new());
+            let vs: Vec<Variant<PortableForm>> =
+                (0..len).map(|i| Variant::new(format!("V{i}"), Vec::<Field<PortableForm>>::new(), (i % 256) as u8, Vec::<String>::new())).collect();
+            let fs: Vec<Field<PortableForm>> = (0..len).map(|i| Field::new(None, ((i % 2) as u32).into(), None, Vec::<String>::new())).collect();
+            let ps: Vec<TypeParameter<PortableForm>> =
+                (0..len).map(|i| TypeParameter::new_portable(format!("P{i}"), if i % 2 == 0 { Some(0u32.into()) } else { None })).collect();
+            let segs: Vec<String> = (0..len).map(|i| format!("m{i}")).collect();
+            let reg = PortableRegistry {
+                types: vec![
+                    PortableType::new(0, Type::new(p0(), Vec::new(), TypeDefVariant::new(vs), Vec::new())),
+                    PortableType::new(1, Type::new(p0(), Vec::new(), TypeDefComposite::new(fs), Vec::new())),
+                    PortableType::new(2, Type::new(Path::from_segments_unchecked(segs), ps, TypeDefPrimitive::U8, Vec::new())),
+                ],
+            };
+            let (bytes, s) = run_enc(&reg);
+            out.line(&format!("codec {} {}", case, s));
+            case += 1;
+            out.line(&format!("codec {} {}", case, run_dec(&bytes)));
+            case += 1;
+        }
         // list lengths at the 2-byte / 4-byte compact boundary (cheap elements)
         for len in [16383usize, 16384] {
             let tup = TypeDefTuple::new_portable((0..len).map(|k| ((k % 3) as u32).into()).collect::<Vec<_>>());
